@@ -273,12 +273,12 @@ def rule_wire(R):
     R.ob("wire/step-slice", okc, "the bytes written for a retained step are that step's own (offset, len)", where=pb.span)
     ns = roles.method(f, OUTBOUND, "next_step")
     okn = False
-    for bb, j, s in ns.assigns():
-        rv = s["rv"]
-        if bb in ns.reachable and "agg" in rv and (rv["agg"].get("adt") or "").endswith("RetainedStep"):
-            t2 = ns.rvalue_term(rv)
-            fl = dict(zip(t2[4], t2[5]))
-            okn = all(chain(fl[k], extra=ELEM)[1][-1:] == [k] and "retained" in chain(fl[k], extra=ELEM)[1] for k in ("packet_id", "offset", "len", "state"))
+    for sc in outq.step_constructions(f, ns):
+        if sc["kind"] != "Retained":
+            continue
+        fl = sc["fields"]
+        okn = all(k in fl and chain(fl[k], extra=ELEM)[1][-1:] == [k] and "retained" in chain(fl[k], extra=ELEM)[1]
+                  for k in ("packet_id", "offset", "len", "state"))
     R.ob("wire/step-from-entry", okn, "a retained step copies id, offset, len and state of one retained entry", where=ns.span)
 
 
@@ -306,7 +306,7 @@ def rule_used(R):
             if "agg" in rv and rv["agg"].get("adt") == OUTBOUND:
                 t = b.rvalue_term(rv)
                 fl = dict(zip(t[4], t[5]))
-                R.ob("used/ctor/%s" % b.fn_name, b.fn_name == "new" and fl["used"][0] == "const" and fl["used"][2] == 0,
+                R.ob("used/ctor/%s" % b.fn_name, b.fn_name == "new" and "used" in fl and fl["used"][0] == "const" and fl["used"][2] == 0,
                      "a new arena starts empty", where=s["span"])
     R.floor("used/writer", n, 3, "stores to `used`")
     # free-space computations depend on the entries only
